@@ -6,7 +6,7 @@ Props/C09.lean are about those generated definitions.
 H: the translator is validated by evaluating a float rendering of the same syntax trees in the
 Lean driver against the functions; the exact gate library `gateE` (Z[zeta16][1/2]) is compared
 with the implementation over every name and every residue of the angle (finite, complete)."""
-import itertools, math, struct, time
+import itertools, math, random, struct, time
 import numpy as np
 
 from vlib.core import PropertyCheck
@@ -199,7 +199,7 @@ class C09(PropertyCheck):
         "QipVerif.C09.hard_values_sound", "QipVerif.C09.ctor_table_sound", "QipVerif.C09.ctor_hardcoded_refuses",
         "QipVerif.C09.ctor_controlled_anatomy", "QipVerif.C09.ctor_chain_hands_on", "QipVerif.C09.ctor_request_honoured",
         "QipVerif.C09.ctor_plain_table", "QipVerif.C09.ctor_plain_anatomy", "QipVerif.C09.ctor_fixed_table",
-        "QipVerif.C09.ctor_fixed_refuses",
+        "QipVerif.C09.ctor_fixed_refuses", "QipVerif.C09.circuit_path_history_independent",
         "QipVerif.C09.ctor_circuit_agrees", "QipVerif.C09.ctor_controlled_matrix", "QipVerif.C09.ctor_controlled_value_refused",
     ]
     base_theorems = list(theorems)
@@ -227,7 +227,9 @@ class C09(PropertyCheck):
                   "first listed most significant (ctor_controlled_matrix), refuses values outside the blocks; the carried value is "
                   "the requested one for every class of the table (ctor_request_honoured); the fixed-matrix classes outside the "
                   "hierarchy (TOFFOLI, FREDKIN, generic Gate of a controlled name) serve a request only with no control value or "
-                  "'all listed controls 1' (ctor_fixed_refuses); circuit path = class path (ctor_circuit_agrees). These hold for "
+                  "'all listed controls 1' (ctor_fixed_refuses); circuit path = class path (ctor_circuit_agrees) and, by the regenerated "
+                  "rule of QubitCircuit._get_gate_unitary (own get_compact_qobj, no circuit state written), independent of the other "
+                  "gates a circuit holds (circuit_path_history_independent; 2.7k circuits of several gate objects per run). These hold for "
                   "the source after the fixes C09-2 (CPHASE dropped control_value) and C09-3 (TOFFOLI/FREDKIN/generic Gate ignored "
                   "it), found here and applied. "
                   "Tie: float rendering of the same syntax trees vs the functions on a 15-angle "
@@ -258,7 +260,8 @@ class C09(PropertyCheck):
                     "forwarding, super() order), validated against the implementation on every class x path x argument shape",
                     "py/props/c09.py, py/props/c09_ctor.py documented matrices (oracle) and harness"]
     rule = ("case = (gate function or gate name, parameter tuple from a grid with boundary values + seeded random, path) or "
-            "(controlled_gate request: controls, targets, N, control value) or (constructor request: class key, path, shape of "
+            "(controlled_gate request: controls, targets, N, control value) or (circuit of several gate objects/names) or "
+            "(constructor request: class key, path, shape of "
             "targets, shape of controls, shape of arg_value, control value); non-trivial = parametric gate, multi-qubit gate, "
             "any controlled_gate request, any constructor request")
 
@@ -412,6 +415,10 @@ class C09(PropertyCheck):
         else:
             cc.correspondence(ctx, res, drv, entries, self.class_map)
 
+        # (f) circuits holding several gate objects: the regenerated rule `_get_gate_unitary(gate) = gate.get_compact_qobj()`
+        #     — the matrix reported through the circuit is the gate's own, whatever else the circuit holds
+        cc.correspondence_multi(ctx, res)
+
     def _corr_ctrl(self, ctx, res, drv):
         import qutip
         from qutip_qip.operations import controlled_gate
@@ -536,6 +543,8 @@ class C09(PropertyCheck):
             return bool(d > 1e-10), f"controlled gate of a unitary is not unitary (|R*R-1| = {d:.3g})" if d > 1e-10 else "block specification met"
         if w["kind"] == "ctor":
             return cc.oracle(w)
+        if w["kind"] == "circ":
+            return cc.oracle_multi(w)
         if w["kind"] == "ctrl-malformed":
             return False, "malformed request to controlled_gate (outside the property); only the refusal kind is compared"
         return False, "unknown witness"
@@ -556,16 +565,20 @@ class C09(PropertyCheck):
                 yield {"kind": "ctrl", "U_re": U.real.tolist(), "U_im": U.imag.tolist(), "controls": qs[:nc], "targets": qs[nc:],
                        "N": N, "value": rng.randrange(2 ** nc)}
 
-    def _ctor_sweep(self):
+    def _ctor_sweep(self, rng_seed=0, thorough=False):
         """constructor requests: every class / path, well-formed placements, every control value (no request class is left
         out; the sweep does not depend on the translator or the model)"""
         for w in cc.sweep_requests():
             f, det = cc.oracle(w)
             if f:
                 yield w, det
+        for w in cc.multi_requests(random.Random(rng_seed), thorough):
+            f, det = cc.oracle_multi(w)
+            if f:
+                yield w, det
 
     def oracle_always(self, ctx):
-        yield from self._ctor_sweep()
+        yield from self._ctor_sweep(ctx.rng.randrange(10 ** 9), ctx.thorough)
         for w in self._witnesses(ctx, 300 if not ctx.thorough else 3000):
             f, d = self.oracle_replay(ctx, w)
             if f:
@@ -573,7 +586,7 @@ class C09(PropertyCheck):
 
     def oracle_search(self, ctx, budget_s):
         t0 = time.time()
-        yield from self._ctor_sweep()
+        yield from self._ctor_sweep(ctx.rng.randrange(10 ** 9), ctx.thorough)
         for name in SHAPES:
             for i in range(len(ANGLES) if name in NARGS else 1):
                 w = {"kind": "gate", "name": name, "arg": gate_args(name, ctx.rng, i)}
